@@ -83,6 +83,21 @@ def pool():
             extra.append((label + " observed, then with_scheme('x')", w.with_scheme("x")))
         except (ValueError, TypeError):
             pass
+    for label, u in members[1::9]:
+        for what, fn in (("with_query(None)", lambda x: x.with_query(None)), ("update_query(None)", lambda x: x.update_query(None)),
+                         ("with_fragment(None)", lambda x: x.with_fragment(None)), ("with_query('')", lambda x: x.with_query("")),
+                         ("with_query({})", lambda x: x.with_query({})), ("% None", lambda x: x % None)):
+            try:
+                extra.append((label + " " + what, fn(u)))
+            except (ValueError, TypeError):
+                pass
+    for label, u in [m for m in members if m[1].raw_authority][2::17]:
+        for what, fn in (("with_user(None)", lambda x: x.with_user(None)), ("with_password(None)", lambda x: x.with_password(None)),
+                         ("with_port(None)", lambda x: x.with_port(None)), ("origin()", lambda x: x.origin()), ("relative()", lambda x: x.relative())):
+            try:
+                extra.append((label + " " + what, fn(u)))
+            except (ValueError, TypeError):
+                pass
     extra.append(("build http h.com", U.build(scheme="http", host="h.com")))
     extra.append(("build http h.com /", U.build(scheme="http", host="h.com", path="/")))
     extra.append(("build http h.com:80", U.build(scheme="http", host="h.com", port=80)))
